@@ -322,12 +322,14 @@ theorem tri_glyphListLoop (f : Font) : ∀ (n B : Nat) (res : List Nat) (hy : Bo
           obtain ⟨res', hy'⟩ := x
           exact ih _ _ _ (by simp [d0]; omega)
       split
-      · refine tri_bind (tri_mapRunes _ f _) ?_
-        intro next _
-        refine tri_bind (tri_addGids _ _ _ _) ?_
-        intro x _
-        obtain ⟨res', hy'⟩ := x
-        exact ih _ _ _ (by simp [d0]; omega)
+      · split
+        · exact tri_fatal _ _ _ _
+        · refine tri_bind (tri_mapRunes _ f _) ?_
+          intro next _
+          refine tri_bind (tri_addGids _ _ _ _) ?_
+          intro x _
+          obtain ⟨res', hy'⟩ := x
+          exact ih _ _ _ (by simp [d0]; omega)
       split
       · split
         · split
